@@ -81,10 +81,25 @@ SHAPES = {
     "unser-dict-set": ("unser", True), "unser-object": ("unser", True), "unser-dict-object": ("unser", True),
     "unser-typed-object": ("unser", True), "unser-raw-surrogate": ("unser", True), "unser-dumponly-raises": ("unser", True),
     "unser-dict-bytes": ("unser", True),
+    "unser-dict-deep": ("unser", True),          # nested far beyond the recursion limit: dumps AND repr raise RecursionError
+    "unser-repr-raises": ("unser", True),        # not serialisable, and its __repr__ raises as well
 }
 BY_GROUP = {}
 for _n, (_g, _j) in SHAPES.items():
     BY_GROUP.setdefault(_g, []).append(_n)
+
+
+class ReprRaises:
+    def __repr__(self):
+        raise RuntimeError("no repr")
+
+
+def deep_dict(n=3000):
+    d = cur = {}
+    for _ in range(n):
+        cur["a"] = {}
+        cur = cur["a"]
+    return d
 
 
 class DumpOnly:
@@ -166,6 +181,10 @@ def build(desc):
         return DumpOnly({}, fail=True), None, False
     if shape == "unser-dict-bytes":
         return {"id": mid, "b": b"ab"}, None, False
+    if shape == "unser-dict-deep":
+        return {"id": mid, "params": deep_dict()}, None, False
+    if shape == "unser-repr-raises":
+        return {"id": mid, "params": {"o": ReprRaises()}}, None, False
     raise ValueError(shape)
 
 
@@ -218,24 +237,45 @@ async def writer_idle(client, proc, want_closed=False, spins=4000):
     return False
 
 
+async def send_or_giveup(w, obj, spins=2000):
+    """Send on the write stream without ever blocking for good: a writer task that has died stops consuming, and a
+    plain `await w.send()` would then hang the harness.  False = the writer did not take the message."""
+    for _ in range(spins):
+        try:
+            w.send_nowait(obj)
+            return True
+        except anyio.WouldBlock:
+            await anyio.sleep(0)
+        except (anyio.BrokenResourceError, anyio.ClosedResourceError):
+            return False
+    return False
+
+
 async def run_sequences(seqs):
-    """seqs: list of (descriptors, close?).  One client per closing sequence, a shared one for the others.
-    Returns per sequence (writes, closed, idle_reached)."""
+    """seqs: list of (descriptors, close?).  One client per closing sequence, a shared one for the others (replaced by a
+    fresh one when its writer stops consuming).  Returns per sequence (writes, closed, idle_reached)."""
     out = [None] * len(seqs)
-    proc = FakeProcess()
-    with patched_open_process(proc):
-        client = new_client()
-        async with client:
-            _r, w = client.get_streams()
-            for i, (descs, close) in enumerate(seqs):
-                if close:
-                    continue
-                n0 = len(proc.stdin.writes)
-                for d in descs:
-                    await w.send(build(d)[0])
-                ok = await writer_idle(client, proc)
-                out[i] = (list(proc.stdin.writes[n0:]), proc.stdin.closed, ok)
-            proc.stdout.close()
+    todo = [i for i, (_d, close) in enumerate(seqs) if not close]
+    while todo:
+        proc = FakeProcess()
+        with patched_open_process(proc):
+            client = new_client()
+            async with client:
+                _r, w = client.get_streams()
+                while todo:
+                    i = todo.pop(0)
+                    descs = seqs[i][0]
+                    n0 = len(proc.stdin.writes)
+                    alive = True
+                    for d in descs:
+                        if not await send_or_giveup(w, build(d)[0]):
+                            alive = False
+                            break
+                    ok = alive and await writer_idle(client, proc)
+                    out[i] = (list(proc.stdin.writes[n0:]), proc.stdin.closed, ok)
+                    if not ok:
+                        break          # this client's writer is gone or stuck: the next sequence gets a fresh client
+                proc.stdout.close()
     for i, (descs, close) in enumerate(seqs):
         if not close:
             continue
@@ -244,13 +284,17 @@ async def run_sequences(seqs):
             client = new_client()
             async with client:
                 _r, w = client.get_streams()
+                alive = True
                 for d in descs:
-                    await w.send(build(d)[0])
-                await writer_idle(client, proc)
+                    if not await send_or_giveup(w, build(d)[0]):
+                        alive = False
+                        break
+                if alive:
+                    await writer_idle(client, proc)
                 early = proc.stdin.closed
                 await w.aclose()
                 ok = await writer_idle(client, proc, want_closed=True)
-                out[i] = (list(proc.stdin.writes), proc.stdin.closed and not early, ok)
+                out[i] = (list(proc.stdin.writes), proc.stdin.closed and not early, ok and alive)
                 proc.stdout.close()
     return out
 
@@ -379,7 +423,11 @@ def explore(ctx, drv):
         for d in descs:
             ctx.count("shape:" + d["shape"])
         if not idle and not close:
-            raise lib.HarnessError(f"writer did not become idle for case {json.dumps(case)[:300]}")
+            # the writer task stopped taking messages off the write stream (it ended or is stuck): everything after
+            # that point is lost - an observation about the implementation, not a harness failure
+            bad = next((d["shape"] for d in descs if not build(d)[2]), None)
+            ctx.spec_violation("writer-stopped-consuming" + (":after-" + SHAPES[bad][0] if bad else ""), case,
+                               f"{len(writes)} writes for {len(descs)} messages; the writer no longer receives")
         mw = [bytes(w) for w in m_writes]
         if writes != mw or bool(closed) != bool(m_closed):
             ctx.mismatch(case, {"writes": [w.hex() for w in writes], "closed": bool(closed)},
